@@ -225,7 +225,7 @@ _EXC_PARENT = {
     'IndexError': 'LookupError', 'RuntimeError': 'Exception',
     'SyntaxError': 'Exception', 'ImportError': 'Exception',
     'OSError': 'Exception', 'AttributeError': 'Exception',
-    'NameError': 'Exception', 'AssertionError': 'Exception',
+    'NameError': 'Exception', 'UnboundLocalError': 'NameError', 'AssertionError': 'Exception',
     'StopIteration': 'Exception', 'TokenError': 'Exception',
 }
 _EXC_ALIASES = {'IOError': 'OSError'}
@@ -728,7 +728,21 @@ def val_of_bool(e):
   return ufun('val_of_bool', BoolS, Val)(e)
 
 
+def val_as_int(e):
+  return ufun('val_as_int', Val, IntS)(e)
+
+
+def val_of_int(e):
+  return ufun('val_of_int', IntS, Val)(e)
+
+
 def val_axioms():
+  n = z3.Int('n!va')
+  add_axiom('val_int_roundtrip', z3.ForAll(
+      [n], z3.And(val_as_int(val_of_int(n)) == n,
+                  tag_of(val_of_int(n)) == TAG['int'],
+                  val_truthy(val_of_int(n)) == (n != 0)),
+      patterns=[val_of_int(n)]), keys=['val_of_int'])
   s = z3.Const('s!va', Str)
   b = z3.Const('b!va', BoolS)
   add_axiom('val_str_roundtrip', z3.ForAll(
@@ -764,6 +778,9 @@ def to_val(w):
   if isinstance(w, VBool):
     val_axioms()
     return val_of_bool(w.e)
+  if isinstance(w, VInt):
+    val_axioms()
+    return val_of_int(w.e)
   if isinstance(w, VOpt):
     return z3.If(w.is_none, VAL_NONE, to_val(w.inner))
   if isinstance(w, (VList, VDict, VTuple, VRecord)):
